@@ -6,10 +6,12 @@ package main
 import (
 	"errors"
 	"fmt"
+	"golang.org/x/sys/unix"
 	"io"
 	"os"
 	"os/exec"
 	"os/signal"
+	"runtime"
 	"strings"
 	"sync"
 	"sync/atomic"
@@ -95,9 +97,16 @@ func scenExec(out *scenOut, r *rng, thorough bool) {
 		execOnce(out, c.bits, nil, len(c.between)+1, false, true, "quit", false, 60)
 		execBetweenCmds = nil
 	}
+	// a program built with WithoutSignals hands its terminal over like any other
+	execExtraOpts, execExtraDesc = []tea.ProgramOption{tea.WithoutSignals()}, "WithoutSignals"
+	execOnce(out, 1|16, nil, 2, false, true, "quit", false, 60)
+	execOnce(out, 0, []int{2}, 1, true, true, "quit", true, 60)
+	execExtraOpts, execExtraDesc = nil, ""
 	execNilInput(out)
 	execCallbackWhileLoopBusy(out, false)
 	execCallbackWhileLoopBusy(out, true)
+	execReleaseFailsOnceOnTTY(out, "quit")
+	execReleaseFailsOnceOnTTY(out, "kill")
 	execReleaseFails(out, "quit-msg")
 	execAfterEOF(out)
 	execProcessReal(out)
@@ -317,6 +326,10 @@ func execChild(out *scenOut, childName, key, desc, what string) {
 // execOnce call, before the following one (set by the caller, reset afterwards).
 var execBetweenCmds [][]int
 
+// execExtraOpts: further program options for the next execOnce calls (the runs are sequential)
+var execExtraOpts []tea.ProgramOption
+var execExtraDesc string
+
 func execOnce(out *scenOut, bits int, hist []int, nexec int, fail, withCallback bool, end string, constView bool, fps int) {
 	o := modeOpts{alt: bits&1 != 0, cell: bits&2 != 0, all: bits&4 != 0, nopaste: bits&8 != 0, focus: bits&16 != 0}
 	var names []string
@@ -439,6 +452,10 @@ func execOnce(out *scenOut, bits int, hist []int, nexec int, fail, withCallback 
 		return fmt.Sprintf("VIEW-%d\nsecond line\n", updates)
 	}
 	opts := append(o.options(), tea.WithoutSignalHandler(), tea.WithFPS(fps), tea.WithInput(pr))
+	opts = append(opts, execExtraOpts...)
+	if len(execExtraOpts) > 0 {
+		desc += " " + execExtraDesc
+	}
 	run := startProgram(ctl, buf, opts...)
 	prog = run.p
 	if !waitFor(3*time.Second, func() bool { return ctl.log.has("view-exit", "") }) {
@@ -987,5 +1004,100 @@ func execCallbackWhileLoopBusy(out *scenOut, fail bool) {
 	out.record(fmt.Sprintf("exec-callback-while-loop-busy/%t", fail), desc)
 	if n := ctl.log.count("update-enter", "execdone:busy"); !ok || n != 1 {
 		out.fail(finding{Property: "C17", Class: "new", What: "the callback's message was not delivered exactly once (the event loop was busy when the command returned)", Input: desc, Expected: "1", Observed: fmt.Sprint(n)})
+	}
+}
+
+// restoreFailsOnceFile: a terminal whose descriptor cannot be had exactly once - the next time the
+// library asks for it in order to put the saved line settings back (restoreInput), as happens when
+// the terminal is briefly unavailable. Every other request is served.
+type restoreFailsOnceFile struct {
+	*os.File
+	armed int32
+}
+
+func (f *restoreFailsOnceFile) Fd() uintptr {
+	if atomic.LoadInt32(&f.armed) == 1 {
+		pcs := make([]uintptr, 16)
+		n := runtime.Callers(2, pcs)
+		frames := runtime.CallersFrames(pcs[:n])
+		for {
+			fr, more := frames.Next()
+			if strings.HasSuffix(fr.Function, ".restoreInput") {
+				if atomic.CompareAndSwapInt32(&f.armed, 1, 0) {
+					return ^uintptr(0)
+				}
+			}
+			if !more {
+				break
+			}
+		}
+	}
+	return f.File.Fd()
+}
+
+// execReleaseFailsOnceOnTTY: input is a real terminal (a pty). Putting the line settings back fails
+// ONCE, at the moment an Exec releases the terminal: the Exec is abandoned (the callback gets the
+// error, the command does not run) and the program goes on in raw mode as before. When it ends, the
+// line settings are those from before Run - whatever happened in between, the state saved at start-up
+// is the one that is put back (C05).
+func execReleaseFailsOnceOnTTY(out *scenOut, cause string) {
+	pp, err := openPty()
+	if err != nil {
+		return
+	}
+	defer pp.master.Close()
+	defer pp.slave.Close()
+	go func() {
+		b := make([]byte, 4096)
+		for {
+			if _, err := pp.master.Read(b); err != nil {
+				return
+			}
+		}
+	}()
+	in := &restoreFailsOnceFile{File: pp.slave}
+	ctl := newRecCtl()
+	var ran int32
+	fe := &fakeExec{run: func(f *fakeExec) error { atomic.AddInt32(&ran, 1); return nil }}
+	ctl.onUpdate = func(m tea.Msg, v int) tea.Cmd {
+		if u, ok := m.(userMsg); ok && u.Sender == 9 {
+			atomic.StoreInt32(&in.armed, 1)
+			return tea.Exec(fe, func(err error) tea.Msg { return execDoneMsg{Tag: "tty", Err: err} })
+		}
+		return nil
+	}
+	fd := int(pp.slave.Fd())
+	before, e1 := unix.IoctlGetTermios(fd, unix.TCGETS)
+	if e1 != nil {
+		return
+	}
+	run := startProgram(ctl, nil, tea.WithInput(in), tea.WithoutSignalHandler())
+	desc := "input a pty; an Exec whose ReleaseTerminal fails once (the descriptor is unavailable when the line settings are put back); then " + cause
+	if !waitFor(3*time.Second, func() bool { return ctl.log.has("view-exit", "") }) {
+		killNow(run.p)
+		return
+	}
+	run.p.Send(userMsg{9, 0})
+	waitFor(3*time.Second, func() bool { return ctl.log.has("update-exit", "execdone:tty") })
+	time.Sleep(30 * time.Millisecond)
+	out.record("exec-release-fails-once-on-tty/"+cause, desc)
+	if atomic.LoadInt32(&in.armed) == 1 {
+		// the library did not ask for the descriptor inside restoreInput: the failure was not injected
+		out.record("exec-release-fails-once-on-tty/not-injected", desc)
+	}
+	switch cause {
+	case "quit":
+		go run.p.Quit()
+	case "kill":
+		go run.p.Kill()
+	}
+	if !run.wait(4 * time.Second) {
+		out.fail(finding{Property: "C04", Class: "new", What: "Run does not return after an Exec whose terminal release failed once", Input: desc, Observed: goroutineDump()})
+		return
+	}
+	after, _ := unix.IoctlGetTermios(fd, unix.TCGETS)
+	if after != nil && *after != *before {
+		out.fail(finding{Property: "C05", Class: "new", What: "termios of the input terminal differ from those before Run (an Exec whose terminal release failed once happened in between)", Input: desc,
+			Expected: fmt.Sprintf("lflag=%#x", before.Lflag), Observed: fmt.Sprintf("lflag=%#x", after.Lflag)})
 	}
 }
